@@ -49,6 +49,31 @@ DIRECTED = [
     "stel x = 0; " + "als x == 0 { x = 1 } " * 8000 + " x",
 ]
 
+# float SPECIAL VALUES (there is no literal for them: they arise at run time) x every operator, every builtin, both operand
+# sides, local and global, conditions and indices: NaN (three ways), +-infinity, -0.0, the largest finite, the smallest subnormal
+def float_special_programs():
+    specials = ["0.0 / 0.0", "(1.0 / 0.0) - (1.0 / 0.0)", "float(\"nan\")", "1.0 / 0.0", "0.0 - 1.0 / 0.0", "0.0 * (0.0 - 1.0)",
+                "179769313486231570000000000000000000000000000000000000000000000000000000000000000000000000000000000000000000000000000000000000000000000000000000000000000000000000000000000000000000000000000000000000000000000000000000000000000000000000000000000000000000000000000000000000000000000000000000000000000000000000000.0",
+                "float(\"5e-324\")"]
+    others = ["1.5", "0.0", "0.0 / 0.0", "1.0 / 0.0"]
+    ops = ["+", "-", "*", "/", "%", "<", "<=", ">", ">=", "==", "!="]
+    out = []
+    for s in specials:
+        for o in others:
+            for op in ops:
+                out.append("stel x = %s; stel y = %s; [x %s y, y %s x]" % (s, o, op, op))
+        for op in ops:
+            out.append("functie f(n) { stel m = 1.5; [n %s m, m %s n, n %s n] } f(%s)" % (op, op, op, s))
+        for b in ["bool", "int", "float", "string", "type", "lengte", "print"]:
+            out.append("stel x = %s; %s(x)" % (s, b))
+        out.append("stel x = %s; [-x, !(x < 1.0), [1, 2][x]]" % s)
+        out.append("stel x = %s; als x < 1.0 { 1 } anders { 2 }" % s)
+        out.append("stel x = %s; stel k = 0; zolang x > 1.0 && k < 3 { k += 1 }; k" % s)
+        out.append("stel x = %s; print(\"{} {}\", x, [x]); string([x, [x]])" % s)
+        out.append("stel x = %s; float(string(x)) == x" % s)
+    return out
+
+
 # heap shapes x collection points: a collection runs at every function return, whatever is alive then
 HEAP_DIRECTED = [
     "stel a = [1, 2]; a[1] = a; functie f(x) { x + 1 }; print(a); f(1); a",
@@ -90,6 +115,8 @@ def run(res, tier, rng, table_diffs=()):
     inputs = []   # (label, text)
     for d in DIRECTED:
         inputs.append(("directed", d))
+    for d in float_special_programs():
+        inputs.append(("float-specials", d))
     n = 3000 if tier == "quick" else 100000
     for _ in range(n):
         inputs.append(("tokens", " ".join(rng.pick(VOCAB) for _ in range(rng.range(1, 14)))))
